@@ -506,9 +506,15 @@ class Ctx:
         """cases: JSON-like; line_of(case)->protocol line; impl_of(case)->canonical output line.
         Compares the model's answer with the implementation's."""
         st = self.streams.setdefault(stream, {"cases": 0, "disagree": 0, "unsupported": 0, "errs": {}, "known": 0})
+        if (self.failures or self.disagreements) and time.time() - self.t0 > (240 if self.tier == "quick" else 1500):
+            st["skipped_after_failures"] = st.get("skipped_after_failures", 0) + len(cases)  # see evaluate()
+            return
         lines = [line_of(c) for c in cases]
         outs = run_driver(lines)
         for c, line, mo in zip(cases, lines, outs):
+            if st["disagree"] >= 300:
+                st["stopped_after_disagreements"] = True
+                break
             st["cases"] += 1
             io = impl_of(c)
             self.note_case({"stream": stream, "case": c}, nontrivial(c) if nontrivial else True)
@@ -536,7 +542,15 @@ class Ctx:
         """prop_fn(case) -> None when the property holds on the implementation,
         otherwise a JSON-like description of what failed."""
         st = self.streams.setdefault("eval:" + evaluator, {"cases": 0, "failed": 0, "known": 0})
+        if self.failures and time.time() - self.t0 > (240 if self.tier == "quick" else 1500):
+            # failing inputs are already in hand and the run is long (broken code can make every case expensive):
+            # the verdict cannot change any more, skip what is left
+            st["skipped_after_failures"] = st.get("skipped_after_failures", 0) + len(cases)
+            return
         for c in cases:
+            if st["failed"] >= 60:
+                st["stopped_after_failures"] = True  # 60 unexplained failures of this evaluator: enough to report
+                break
             st["cases"] += 1
             self.note_case({"eval": evaluator, "case": c}, nontrivial(c) if nontrivial else True)
             try:
